@@ -73,6 +73,20 @@ contract(OM + "_round_balance_updates", props=P + ["C04"], types={"balance_updat
                            "and grid(at(balance_updates, pair.quote_symbol), cfg_pair_info(om_cfg(self), pair).quote_precision)")],
          raises={"Error!": [("missing", "not cfg_has_pair(om_cfg(self), pair)"), ("unchanged", "content_unchanged(balance_updates)")]},
          modifies=["content(balance_updates)"])
+# the same function for amounts that are already on the base grid (validated requests are): nothing is truncated, the
+# quote amount is only rounded -- a contract without the price-keeping quotient, used by _estimate_required_balances
+contract(OM + "_round_balance_updates", variant="ongrid", props=["C06", "C07", "C08"], types={"balance_updates": "ValueMap"},
+         requires=[("pair", "pair.base_symbol != pair.quote_symbol"),
+                   ("on_grid", "implies(cfg_has_pair(om_cfg(self), pair), grid(at(balance_updates, pair.base_symbol), cfg_pair_info(om_cfg(self), pair).base_precision))")],
+         ensures=[("configured", "cfg_has_pair(om_cfg(self), pair)"),
+                  ("base", "at(balance_updates, pair.base_symbol) == old(at(balance_updates, pair.base_symbol))"),
+                  ("quote", "at(balance_updates, pair.quote_symbol) == q_he(old(at(balance_updates, pair.quote_symbol)), cfg_pair_info(om_cfg(self), pair).quote_precision)"),
+                  ("others", "forall(lambda s=Str: implies(s != pair.base_symbol and s != pair.quote_symbol, at(balance_updates, s) == old(at(balance_updates, s))))"),
+                  ("pruned", "forall(lambda s=Str: (s in balance_updates) == (old(s in balance_updates) and at(balance_updates, s) != 0))"),
+                  ("grid", "grid(at(balance_updates, pair.base_symbol), cfg_pair_info(om_cfg(self), pair).base_precision) "
+                           "and grid(at(balance_updates, pair.quote_symbol), cfg_pair_info(om_cfg(self), pair).quote_precision)")],
+         raises={"Error!": [("missing", "not cfg_has_pair(om_cfg(self), pair)"), ("unchanged", "content_unchanged(balance_updates)")]},
+         modifies=["content(balance_updates)"])
 specfun("rounded_fee", ["cfg", "pair", "s", "x"],
         "ite(s == pair.base_symbol, q_up(x, cfg_pair_info(cfg, pair).base_precision), "
         "ite(s == pair.quote_symbol, q_up(x, cfg_pair_info(cfg, pair).quote_precision), x))")
@@ -187,22 +201,22 @@ specfun("est_fee_q", ["m", "o"],
 specfun("req_of", ["m", "o", "s"],
         "ite(s == ob(o), (-est_b(m, o) if est_b(m, o) < 0 else 0), "
         "ite(s == oq(o), (-(est_q(m, o) + est_fee_q(m, o)) if est_q(m, o) + est_fee_q(m, o) < 0 else 0), 0))")
-contract(OM + "_estimate_required_balances", props=["C06", "C07"], returns="ValueMap", modifies=[],
-         hints=[("amount_on_grid_is_not_truncated", "implies(grid(order._amount, bp_of(self, order)), "
-                                                     "q_down(order._amount, bp_of(self, order)) == order._amount and q_down(-order._amount, bp_of(self, order)) == -order._amount)")],
+contract(OM + "_estimate_required_balances", props=["C06", "C07"], returns="ValueMap", modifies=[], callee_variant="ongrid",
          requires=[("order", "order_wf(order) and wf_config(om_cfg(self), order._pair)"), ("fees", "fee_wf(self._ctx.fee_strategy)"),
+                   # validated requests have their amount on the base grid (requests.validate, C08)
+                   ("amount_on_grid", "grid(order._amount, bp_of(self, order)) and grid(-order._amount, bp_of(self, order))"),
                    ("prices", "prices_wf(self._ctx.prices)"),
                    ("new", "forall(lambda s=Str: not (s in order._balance_updates)) and forall(lambda s=Str: not (s in order._fees))")],
          ensures=[("fresh", "fresh(result)"),
                   ("nonneg", "forall(lambda s=Str: at(result, s) >= 0 and implies(s in result, at(result, s) > 0))"),
                   # stated per symbol first (base / quote / any other), each a small query; the quantified form follows
-                  ("reservation_base", "implies(known_order(order) and known_fees(self._ctx.fee_strategy) and grid(order._amount, bp_of(self, order)), "
+                  ("reservation_base", "implies(known_order(order) and known_fees(self._ctx.fee_strategy), "
                                        "at(result, ob(order)) == req_of(self, order, ob(order)))"),
-                  ("reservation_quote", "implies(known_order(order) and known_fees(self._ctx.fee_strategy) and grid(order._amount, bp_of(self, order)), "
+                  ("reservation_quote", "implies(known_order(order) and known_fees(self._ctx.fee_strategy), "
                                         "at(result, oq(order)) == req_of(self, order, oq(order)))"),
-                  ("reservation_others", "implies(known_order(order) and known_fees(self._ctx.fee_strategy) and grid(order._amount, bp_of(self, order)), "
+                  ("reservation_others", "implies(known_order(order) and known_fees(self._ctx.fee_strategy), "
                                          "forall(lambda s=Str: implies(s != ob(order) and s != oq(order), at(result, s) == 0)))"),
-                  ("reservation", "implies(known_order(order) and known_fees(self._ctx.fee_strategy) and grid(order._amount, bp_of(self, order)), "
+                  ("reservation", "implies(known_order(order) and known_fees(self._ctx.fee_strategy), "
                                   "forall(lambda s=Str: at(result, s) == req_of(self, order, s)))")])
 
 # ---------------------------------------------------------------------------------------------------------------------
